@@ -21,15 +21,21 @@ Theorem enum_translators_agree : subset schema_actions merge_action_enum = true 
 Proof. exact SortKeyOrder.enum_translators_agree. Qed.
 Print Assumptions enum_translators_agree.
 
-(* ==== BLOCK A: the pinned schema (take_max missing from the enum).  Stops type-checking when notes/C09-fix-1.diff is
-   applied; then delete BLOCK A, uncomment BLOCK B and remove the entry from known_findings.d/C09.json. ==== *)
-Theorem emitted_subset_schema_refuted : exists a, mem a py_emitted = true /\ mem a schema_actions = false.
-Proof. exact (ex_intro _ s_take_max emitted_not_subset_schema). Qed.
-Print Assumptions emitted_subset_schema_refuted.
-
+(* every emitted action is in the published enum, except possibly take_max *)
 Theorem emitted_subset_schema_but_take_max : subset py_emitted (s_take_max :: schema_actions) = true.
 Proof. exact SortKeyOrder.emitted_subset_schema_but_take_max. Qed.
 Print Assumptions emitted_subset_schema_but_take_max.
+
+(* the vocabulary clause in the form that follows the generated facts whichever way they read *)
+Theorem vocabulary_by_schema : vocabulary_statement.
+Proof. exact vocabulary_holds. Qed.
+Print Assumptions vocabulary_by_schema.
+
+(* ==== BLOCK A: the pinned schema (take_max missing from the enum).  Stops type-checking when notes/C09-fix-1.diff is
+   applied; then replace BLOCK A by notes/C09-blockB.v and remove the entry from known_findings.d/C09.json. ==== *)
+Theorem emitted_subset_schema_refuted : exists a, mem a py_emitted = true /\ mem a schema_actions = false.
+Proof. exact (not_subset_witness py_emitted schema_actions (eq_refl false <: subset py_emitted schema_actions = false)). Qed.
+Print Assumptions emitted_subset_schema_refuted.
 (* ==== end of BLOCK A ==== *)
 
 (* BLOCK B (the positive theorems that take over after the fix) is kept ready to paste in notes/C09-blockB.v *)
